@@ -5,7 +5,7 @@ BOTH = '{"call", "exec"}'
 CALL, EXEC = '{"call"}', '{"exec"}'
 
 def cfg(name, classes, outs, durs, rets, advs, decs, ras, modes, nruns, configs, hist,
-        bf="BFaultsNone", gaps="GapsNone"):
+        bf="BFaultsNone", gaps="GapsNone", cdurs="ZeroDur", edurs="ZeroDur"):
     inv = "INVARIANT NoViolation\n" + ("INVARIANT ExportBehaviours\n" if hist else
           "INVARIANT AttemptsBounded\nINVARIANT InvokeWithinDeadline\nINVARIANT SleepWithinRemaining\n"
           "INVARIANT DeliveriesRelated\n")
@@ -14,6 +14,8 @@ CONSTANTS
   Classes <- {classes}
   Outs <- {outs}
   Durs = {durs}
+  CDurs <- {cdurs}
+  EDurs <- {edurs}
   Rets <- {rets}
   Advs <- {advs}
   Decs <- {decs}
@@ -30,14 +32,15 @@ CONSTANTS
 # ---- quick tier: exhaustive check (no history) and behaviour export (x) ----------------------
 cfg("C01", "ClassesCaps", "OutsCaps", "{0}", "RetsOne", "AdvsExact", "DecsSleep", "RasNone", BOTH, 2, "ConfigsC01", False)
 cfg("C01x", "ClassesCaps", "OutsCaps", "{0}", "RetsOne", "AdvsExact", "DecsSleep", "RasNone", BOTH, 1, "ConfigsC01Small", True)
-cfg("C02", "Classes4", "OutsC02", "{0, 1, 2, 5}", "RetsC02", "AdvsAll", "DecsSleep", "RasNone", BOTH, 1, "ConfigsC02", False)
-cfg("C02x", "Classes4", "OutsC02", "{0, 1, 5}", "RetsThree", "AdvsThree", "DecsSleep", "RasNone", BOTH, 1, "ConfigsC02x", True)
+cfg("C02", "Classes4", "OutsC02", "{0, 1, 2, 5}", "RetsC02", "AdvsAll", "DecsSleep", "RasNone", BOTH, 1, "ConfigsC02", False, cdurs="SomeDur", edurs="SomeDur")
+cfg("C02x", "Classes4", "OutsC02", "{0, 1}", "RetsThree", "AdvsThree", "DecsSleep", "RasNone", BOTH, 1, "ConfigsC02x", True, cdurs="SomeDur", edurs="SomeDur")
 cfg("C03", "Classes4", "OutsC03", "{0, 1}", "RetsOne", "AdvsExact", "DecsAll", "RasNone", BOTH, 1, "ConfigsC03", False)
 cfg("C03x", "Classes4", "OutsC03", "{1}", "RetsOne", "AdvsExact", "DecsAll", "RasNone", BOTH, 1, "ConfigsC03x", True)
 cfg("C04", "Classes4", "OutsC04", "{0, 2}", "RetsOne", "AdvsExact", "DecsAll", "RasNone", CALL, 1, "ConfigsC04", False)
 cfg("C04x", "Classes4", "OutsC04", "{2}", "RetsOne", "AdvsExact", "DecsAll", "RasNone", CALL, 1, "ConfigsC04", True)
 cfg("C05", "Classes4", "OutsC05", "{0}", "RetsAll", "AdvsExact", "DecsAll", "RasSome", BOTH, 1, "ConfigsC05", False)
 cfg("C05x", "Classes4", "OutsC05x", "{0}", "RetsAll", "AdvsExact", "DecsSleep", "RasSome", EXEC, 1, "ConfigsC05x", True)
+cfg("C05", "Classes4", "OutsC05", "{0}", "RetsAll", "AdvsExact", "DecsAll", "RasSome", BOTH, 1, "ConfigsC05", False, edurs="SomeDur")
 cfg("C10", "Classes4", "OutsC10", "{1}", "RetsTwoSmall", "AdvsExact", "DecsSleep", "RasNone", EXEC, 3, "ConfigsC10", False, gaps="GapsC10")
 cfg("C10x", "Classes4", "OutsC10", "{1}", "RetsOne", "AdvsExact", "DecsSleep", "RasNone", EXEC, 3, "ConfigsC10x", True, gaps="GapsC10")
 cfg("C11", "Classes4", "OutsC04", "{0, 2}", "RetsOne", "AdvsExact", "DecsAll", "RasNone", EXEC, 1, "ConfigsC11", False)
@@ -47,7 +50,7 @@ cfg("C12x", "Classes4", "OutsC12x", "{2}", "RetsOne", "AdvsExact", "DecsAll", "R
 cfg("C13", "Classes4", "OutsC13", "{0}", "RetsOne", "AdvsC13", "DecsAll", "RasNone", BOTH, 1, "ConfigsC13", False, bf="BFaultsAll")
 cfg("C13x", "Classes4", "OutsC13", "{0}", "RetsOne", "AdvsC13", "DecsAll", "RasNone", BOTH, 1, "ConfigsC13", True, bf="BFaultsAll")
 cfg("C14", "Classes4", "OutsC03", "{0, 1}", "RetsOne", "AdvsExact", "DecsAll", "RasNone", BOTH, 1, "ConfigsC03", False)
-cfg("C14x", "Classes4", "OutsC03", "{1}", "RetsOne", "AdvsExact", "DecsAll", "RasNone", BOTH, 1, "ConfigsC14x", True)
+cfg("C14x", "Classes4", "OutsC03", "{1}", "RetsOne", "AdvsExact", "DecsAll", "RasNone", BOTH, 1, "ConfigsC14x", True, edurs="SomeDur")
 cfg("C15", "Classes4", "OutsC12", "{0, 2}", "RetsTwo", "AdvsExact", "DecsAll", "RasSome", BOTH, 1, "ConfigsC12", False)
 cfg("C15x", "Classes4", "OutsC12x", "{2}", "RetsOne", "AdvsExact", "DecsAll", "RasSome", BOTH, 1, "ConfigsC15x", True)
 cfg("C16", "Classes4", "OutsC16", "{0}", "RetsTwo", "AdvsExact", "DecsAll", "RasNone", BOTH, 1, "ConfigsC16", False)
@@ -77,5 +80,5 @@ cfg("C16_thorough", "Classes4", "OutsC16", "{0, 1}", "RetsTwo", "AdvsExact", "De
 cfg("C16x_thorough", "Classes4", "OutsC16", "{0}", "RetsTwo", "AdvsExact", "DecsAll", "RasNone", BOTH, 1, "ConfigsC16T", True)
 # full product of all dimensions: explored by random simulation (tlc -simulate), thorough tier
 cfg("FULL", "Classes4", "OutsFull", "{0, 1, 3}", "RetsAll", "AdvsFull", "DecsAll", "RasSome", BOTH, 2, "ConfigsFull", True,
-    bf="BFaultsAll", gaps="GapsC10")
+    bf="BFaultsAll", gaps="GapsC10", cdurs="SomeDur", edurs="SomeDur")
 print("cfgs written")
